@@ -917,7 +917,9 @@ func (node *Node) check(ctx context.Context) error {
 				node.state.SetWasInSync()
 			}
 
-			if !node.state.NotifiedSync() {
+			// Headers announced since the in sync flag was set can have added new block requests. Wait
+			// for those blocks before notifying.
+			if !node.state.NotifiedSync() && node.state.BlockRequestsEmpty() {
 				// TODO Add method to wait for mempool to sync
 				for _, handler := range node.handlers {
 					handler.HandleInSync(ctx)
